@@ -270,6 +270,7 @@ func C05() *engine.Check {
 			c02Sub("command-universe-completeness", "complete", 4, 6),
 			c03Sub("policy-universe-completeness", "complete"),
 			c03HookSub("args-hook-completeness", "complete"),
+			c03SeqSub("same-token-sequences-completeness", "complete"),
 			c04ChainSub("time-universe-completeness", "complete", 3, 4),
 			c04RealSub("real-clock-completeness", "complete", 3, 5),
 		},
